@@ -8,11 +8,11 @@ from abc import ABC
 from abc import abstractmethod
 from typing import TYPE_CHECKING
 from typing import Any
+from typing import AsyncIterable
 from typing import Callable
 from typing import Generic
 from typing import Iterable
 from typing import List
-from typing import Mapping
 from typing import Pattern
 from typing import Sequence
 from typing import TypeVar
@@ -27,6 +27,7 @@ from .selectors import ListSelector
 from .serialize import canonical_string
 
 if TYPE_CHECKING:
+    from .match import JSONPathMatch
     from .path import JSONPath
     from .selectors import FilterContext
 
@@ -521,6 +522,36 @@ class Path(FilterExpression, ABC):
         # self.path has its own cache
         return
 
+    def _seed(self, context: FilterContext, obj: object) -> JSONPathMatch:
+        # _obj_ becomes the first node of the embedded query, while `$` and the
+        # filter context keep referring to the query argument and the caller's
+        # data, whatever the nesting depth.
+        return context.env.match_class(
+            filter_context=context.extra_context,
+            obj=[obj] if self.path.fake_root else obj,
+            parent=None,
+            path=context.env.root_token,
+            parts=(),
+            root=context.root,
+        )
+
+    def _nodes(self, context: FilterContext, obj: object) -> NodeList:
+        matches: Iterable[JSONPathMatch] = [self._seed(context, obj)]
+        for selector in self.path.selectors:
+            matches = selector.resolve(matches)
+        return NodeList(matches)
+
+    async def _nodes_async(self, context: FilterContext, obj: object) -> NodeList:
+        seed = self._seed(context, obj)
+
+        async def root_iter() -> AsyncIterable[JSONPathMatch]:
+            yield seed
+
+        matches: AsyncIterable[JSONPathMatch] = root_iter()
+        for selector in self.path.selectors:
+            matches = selector.resolve_async(matches)
+        return NodeList([match async for match in matches])
+
 
 class SelfPath(Path):
     """A JSONPath starting at the current node."""
@@ -535,30 +566,10 @@ class SelfPath(Path):
         return "@" + str(self.path)[1:]
 
     def evaluate(self, context: FilterContext) -> object:
-        if isinstance(context.current, str):  # TODO: refactor
-            if self.path.empty():
-                return context.current
-            return NodeList()
-        if not isinstance(context.current, (Sequence, Mapping)):
-            if self.path.empty():
-                return context.current
-            return NodeList()
-
-        return NodeList(self.path.finditer(context.current))
+        return self._nodes(context, context.current)
 
     async def evaluate_async(self, context: FilterContext) -> object:
-        if isinstance(context.current, str):  # TODO: refactor
-            if self.path.empty():
-                return context.current
-            return NodeList()
-        if not isinstance(context.current, (Sequence, Mapping)):
-            if self.path.empty():
-                return context.current
-            return NodeList()
-
-        return NodeList(
-            [match async for match in await self.path.finditer_async(context.current)]
-        )
+        return await self._nodes_async(context, context.current)
 
 
 class RootPath(Path):
@@ -576,12 +587,10 @@ class RootPath(Path):
         return str(self.path)
 
     def evaluate(self, context: FilterContext) -> object:
-        return NodeList(self.path.finditer(context.root))
+        return self._nodes(context, context.root)
 
     async def evaluate_async(self, context: FilterContext) -> object:
-        return NodeList(
-            [match async for match in await self.path.finditer_async(context.root)]
-        )
+        return await self._nodes_async(context, context.root)
 
 
 class FilterContextPath(Path):
@@ -600,15 +609,10 @@ class FilterContextPath(Path):
         return "_" + path_repr[1:]
 
     def evaluate(self, context: FilterContext) -> object:
-        return NodeList(self.path.finditer(context.extra_context))
+        return self._nodes(context, context.extra_context)
 
     async def evaluate_async(self, context: FilterContext) -> object:
-        return NodeList(
-            [
-                match
-                async for match in await self.path.finditer_async(context.extra_context)
-            ]
-        )
+        return await self._nodes_async(context, context.extra_context)
 
 
 class FunctionExtension(FilterExpression):
